@@ -110,6 +110,44 @@ def emit(name, scalars, t, fnmap, comment):
     return trlib.emit_match_def(name, [], scalars, t, fnmap, comment)
 
 
+def has_parameters_table(lin):
+    """ParametricTransform.has_parameters() -- which decides whether angles()/scales() apply the tanh/exp
+    re-parameterisation -- evaluated on instances of every re-parameterised class for every way `params` can be
+    held, including a transform LINKED to another one (inverse(link=True), .inv).  Also checked here: with
+    has_parameters() true, tensor(invert) is the same closed form in cos/sin/tan/scale of the re-parameterised
+    quantities as without (the re-parameterisation is applied before the same code)."""
+    SymParam = type("SymParam", (st.Tensor, st.nn.Parameter), {})
+    rows = []
+    classes = {"EulerRotation": (3, 3, {"order": None}), "IsotropicScaling": (3, 1, {}),
+               "AnisotropicScaling": (3, 3, {}), "Shearing": (3, 3, {}), "Translation": (3, 3, {})}
+    for cname, (D, n, attrs) in classes.items():
+        cls = getattr(lin, cname)
+
+        def held(kind):
+            if kind == "Parameter":
+                return SymParam(vec("p", n).a)
+            if kind == "tensor":
+                return vec("p", n)
+            if kind == "callable":
+                return lambda *a, **k: vec("p", n)
+            return None
+        for kind in ("Parameter", "tensor", "callable", "none"):
+            t = inst(cls, D, held(kind), False, **attrs)
+            rows.append((cname, kind, bool(t.has_parameters())))
+            other = inst(cls, D, held(kind), False, **attrs)
+            linked = inst(cls, D, other, True, **attrs)
+            rows.append((cname, "link:" + kind, bool(linked.has_parameters())))
+        # the re-parameterised trace has the same shape of closed form (checked for the inverted tensor too)
+        if cname != "Translation":
+            for iv in (False, True):
+                a = inst(cls, D, SymParam(vec("p", n).a), iv, **attrs).tensor()
+                b = inst(cls, D, vec("p", n), iv, **attrs).tensor()
+                if tuple(a.shape) != tuple(b.shape):
+                    raise TraceError(f"{cname}: tensor() shapes differ between Parameter and tensor parameters")
+    items = ";\n".join(f'  ("{c}"%string, "{k}"%string, {"true" if v else "false"})' for c, k, v in rows)
+    return "Definition gen_has_parameters : list (string * string * bool) := [\n" + items + "].\n"
+
+
 def generate(loader):
     stub_modules(loader)
     lin = loader.load("deepali.spatial.linear")
@@ -174,4 +212,5 @@ def generate(loader):
         out.append(emit(f"gen_quaternion_{inv_name[iv]}", ["n", "qw", "qx", "qy", "qz"], t, fm,
                         f"QuaternionRotation.tensor, invert = {iv}; n is the norm the code divides by"))
     out.append("End Gen.\n")
+    out.append(has_parameters_table(lin))
     return "\n".join(out)
